@@ -22,11 +22,12 @@ import EqsigVerif.Handlers.Spec2
 import EqsigVerif.Handlers.Freq2
 import EqsigVerif.Handlers.Single3
 import EqsigVerif.Handlers.LwSmall
+import EqsigVerif.Handlers.Rest2
 /-! table of all driver handlers -/
 namespace EqsigVerif.Handlers
 open EqsigVerif.Wire
 
 def table : List (String × Handler) :=
-  Butter.handlers ++ Single2.handlers ++ Spec2.handlers ++ Freq2.handlers ++ Single3.handlers ++ LwSmall.handlers ++ Prelude.handlers ++ PreludeE.handlers ++ PreludeP.handlers ++ PreludeS.handlers ++ Displacements.handlers ++ Sdof.handlers ++ Fns.handlers ++ DesignSpectra.handlers ++ Loader.handlers ++ SignalSM.handlers ++ Fourier.handlers ++ TimeStep.handlers ++ Surface.handlers ++ Misc.handlers ++ Peaks.handlers ++ Switched.handlers ++ PowerLaw.handlers ++ Im.handlers.map (fun (p : String × Handler) => (if p.1 = "peaks" then "pgx" else p.1, p.2))
+  Butter.handlers ++ Single2.handlers ++ Spec2.handlers ++ Freq2.handlers ++ Single3.handlers ++ LwSmall.handlers ++ Rest2.handlers ++ Prelude.handlers ++ PreludeE.handlers ++ PreludeP.handlers ++ PreludeS.handlers ++ Displacements.handlers ++ Sdof.handlers ++ Fns.handlers ++ DesignSpectra.handlers ++ Loader.handlers ++ SignalSM.handlers ++ Fourier.handlers ++ TimeStep.handlers ++ Surface.handlers ++ Misc.handlers ++ Peaks.handlers ++ Switched.handlers ++ PowerLaw.handlers ++ Im.handlers.map (fun (p : String × Handler) => (if p.1 = "peaks" then "pgx" else p.1, p.2))
 
 end EqsigVerif.Handlers
